@@ -473,9 +473,9 @@ func c02Exhaustive(tier string) []corr.Case {
 	}
 	for size := 0; size <= maxSize; size++ {
 		prefixes := [][]string{
-			{fmt.Sprintf("case %s wr", corr.Hex(seq(size)))},                                            // exact capacity
-			{fmt.Sprintf("case %s wr", corr.Hex(seq(size+3))), fmt.Sprintf("trunc 0 %d", size)},        // shrunk: slack capacity holds stale bytes
-			{"case - wr", fmt.Sprintf("write 0 %s", corr.Hex(seq(size))), "seek 0 0 0"},                 // append-grown
+			{fmt.Sprintf("case %s wr", corr.Hex(seq(size)))},                                                 // exact capacity
+			{fmt.Sprintf("case %s wr", corr.Hex(seq(size+3))), fmt.Sprintf("trunc 0 %d", size)},              // shrunk: slack capacity holds stale bytes
+			{"case - wr", fmt.Sprintf("write 0 %s", corr.Hex(seq(size))), "seek 0 0 0"},                      // append-grown
 			{fmt.Sprintf("case %s wr", corr.Hex(seq(size+2))), "trunc 0 0", fmt.Sprintf("trunc 0 %d", size)}, // shrunk then zero-extended
 		}
 		for _, pre := range prefixes {
